@@ -8,6 +8,7 @@ import (
 	"errors"
 	"fmt"
 	"runtime/debug"
+	"sort"
 
 	"github.com/iotaledger/iota.go/consts"
 	"github.com/iotaledger/iota.go/trinary"
@@ -36,32 +37,76 @@ type Config struct {
 	Ops  []Op   `json:"ops"`
 }
 
+// Every handle is owned by its own goroutine (an "actor"): the caller that holds a clone is, in general, another
+// goroutine than the one that holds the original. The root dispatches one operation at a time (so the history is the
+// sequential one the run describes) with a visible channel send (root happens-before actor), and receives the
+// acknowledgement inside a region hidden from the race detector, so that NO happens-before edge leads from one actor to
+// another. In a -race build of the portable permutation, state shared between an instance and its clone is then reported
+// as the data race it is, even though the simulated history never runs two operations at the same time.
 type handle struct {
+	idx       int
 	real      *curl.Curl
 	m         int
 	lanes     []ref.Sponge // m single-lane reference sponges
 	squeezing bool
-}
 
-type runState struct {
-	cfg     *Config
-	res     proto.End
-	handles []*handle
-	hash    uint64
-	log     []string
+	// owned by the actor goroutine until it has exited
+	in      chan opMsg
+	class   string
+	message string
+	log     []logEntry
+	probes  map[string]int
+	faults  map[string]int
 	changes int
 }
 
-func (r *runState) violate(class, msg string) {
-	if r.res.Class == "" {
-		r.res.Class, r.res.Message = class, msg
-	}
+type opMsg struct {
+	index int
+	op    Op
+	idx   int  // handle number as the root counts them
+	live  int  // number of live handles (Clone is skipped at 4)
+	check bool // no operation: only compare the handle with its model
 }
 
-func (r *runState) mix(s string) {
-	for i := 0; i < len(s); i++ {
-		r.hash ^= uint64(s[i])
-		r.hash *= 1099511628211
+type logEntry struct {
+	index, idx, m, n int
+	kind, extra      string
+}
+
+func (e logEntry) String() string {
+	switch e.kind {
+	case "absorb":
+		return fmt.Sprintf("#%d.absorb(%dx%d,%s)", e.idx, e.m, e.n, e.extra)
+	case "squeeze":
+		return fmt.Sprintf("#%d.squeeze(%dx%d)", e.idx, e.m, e.n)
+	case "reset":
+		return fmt.Sprintf("#%d.reset(m=%d)", e.idx, e.m)
+	case "bad-absorb", "bad-squeeze":
+		return fmt.Sprintf("#%d.%s(%s)", e.idx, e.kind, e.extra)
+	}
+	return fmt.Sprintf("#%d.%s", e.idx, e.kind)
+}
+
+// inboxCap: an inbox never holds more messages in a whole run than it has slots. A channel orders the k-th receive
+// before the completion of the (k+cap)-th send (and an unbuffered one synchronises in both directions); with no slot
+// ever reused the only happens-before edges are root -> actor.
+const inboxCap = 1024
+
+// ack is what an actor tells the root after an operation — by value, through a channel, inside a hidden region.
+type ack struct {
+	violated bool
+	inbox    chan opMsg // non-nil: a clone was created and its actor started
+	state    *handle    // not dereferenced by the root before the actor has exited
+}
+
+type runState struct {
+	cfg *Config
+	res proto.End
+}
+
+func (hd *handle) violate(class, msg string) {
+	if hd.class == "" {
+		hd.class, hd.message = class, msg
 	}
 }
 
@@ -115,8 +160,8 @@ func mask(m int) uint {
 }
 
 // checkHandle compares the state of a handle with its model on the supplied lanes.
-func (r *runState) checkHandle(idx int, where string) bool {
-	hd := r.handles[idx]
+func (hd *handle) check(opIndex int, note string) bool {
+	idx := hd.idx
 	l, h := state(hd.real)
 	mk := mask(hd.m)
 	for i := 0; i < ref.StateLen; i++ {
@@ -137,7 +182,8 @@ func (r *runState) checkHandle(idx int, where string) bool {
 					break
 				}
 			}
-			r.violate("model-divergence:state", fmt.Sprintf("%s: state of handle #%d differs from the reference at trit %d of lane %d (batch size %d): planes (l=%d,h=%d), reference trit %d",
+			where := fmt.Sprintf("after op %d%s", opIndex, note)
+			hd.violate("model-divergence:state", fmt.Sprintf("%s: state of handle #%d differs from the reference at trit %d of lane %d (batch size %d): planes (l=%d,h=%d), reference trit %d",
 				where, idx, i, lane, hd.m, l[i]>>uint(lane)&1, h[i]>>uint(lane)&1, hd.lanes[lane].S[i]))
 			return false
 		}
@@ -145,55 +191,153 @@ func (r *runState) checkHandle(idx int, where string) bool {
 	return true
 }
 
+// loop is the body of an actor goroutine.
+func (hd *handle) loop(acks chan ack, exits chan *handle) {
+	for msg := range hd.in {
+		a := ack{}
+		func() {
+			defer func() {
+				if p := recover(); p != nil {
+					m := fmt.Sprintf("%v", p)
+					hd.violate("panic:"+m, fmt.Sprintf("op %d %+v: %s\n%s", msg.index, msg.op, m, debug.Stack()))
+				}
+			}()
+			if msg.check {
+				hd.check(msg.index, " on another handle")
+			} else if c := hd.step(msg); c != nil {
+				c.in = make(chan opMsg, inboxCap)
+				go c.loop(acks, exits)
+				a.inbox, a.state = c.in, c
+			}
+		}()
+		a.violated = hd.class != ""
+		kernel.Hidden(func() { acks <- a })
+	}
+	if hd.class == "" {
+		hd.check(-1, " (end of the history)")
+	}
+	exits <- hd // visible: the root may read the actor's memory after this
+}
+
 // Run executes one configuration.
 func Run(cfg *Config) proto.End {
-	r := &runState{cfg: cfg, hash: 14695981039346656037}
+	r := &runState{cfg: cfg}
 	r.res.Faults, r.res.Probes, r.res.Tags = map[string]int{}, map[string]int{}, map[string]string{}
 	m := cfg.M
 	if m < 1 || m > 64 {
 		m = 1
 	}
-	r.handles = []*handle{{real: curl.NewCurlP81(), m: m, lanes: make([]ref.Sponge, m)}}
+	acks, exits := make(chan ack, 1), make(chan *handle, 8)
+	first := &handle{m: m, in: make(chan opMsg, inboxCap), probes: map[string]int{}, faults: map[string]int{}}
+	inboxes := []chan opMsg{first.in}
+	go func() {
+		first.real, first.lanes = curl.NewCurlP81(), make([]ref.Sponge, m)
+		first.loop(acks, exits)
+	}()
 	for i := range cfg.Ops {
-		if r.res.Class != "" {
+		op := cfg.Ops[i]
+		idx := ((op.H % len(inboxes)) + len(inboxes)) % len(inboxes)
+		inboxes[idx] <- opMsg{index: i, op: op, idx: idx, live: len(inboxes)}
+		var a ack
+		kernel.Hidden(func() { a = <-acks })
+		if a.violated {
 			break
 		}
-		func() {
-			defer func() {
-				if p := recover(); p != nil {
-					msg := fmt.Sprintf("%v", p)
-					r.violate("panic:"+msg, fmt.Sprintf("op %d %+v: %s\n%s", i, cfg.Ops[i], msg, debug.Stack()))
-				}
-			}()
-			r.step(i, &cfg.Ops[i])
-		}()
+		// no operation may disturb another handle: every other live handle compares itself with its model now
+		stop := false
+		for j, in := range inboxes {
+			if j == idx {
+				continue
+			}
+			in <- opMsg{index: i, idx: j, check: true}
+			var b ack
+			kernel.Hidden(func() { b = <-acks })
+			stop = stop || b.violated
+		}
+		if a.inbox != nil {
+			inboxes = append(inboxes, a.inbox)
+		}
+		if stop {
+			break
+		}
+	}
+	for _, in := range inboxes {
+		close(in)
+	}
+	var all []*handle
+	for range inboxes {
+		all = append(all, <-exits)
+	}
+	// every actor has exited (visible receive above): their memory may be read now
+	var log []logEntry
+	changes := 0
+	for _, hd := range all {
+		if hd.class != "" && r.res.Class == "" {
+			r.res.Class, r.res.Message = hd.class, hd.message
+		}
+		for k, v := range hd.probes {
+			r.res.Probes[k] += v
+		}
+		for k, v := range hd.faults {
+			r.res.Faults[k] += v
+		}
+		log = append(log, hd.log...)
+		changes += hd.changes
+	}
+	sort.Slice(log, func(i, j int) bool { return log[i].index < log[j].index })
+	hash := uint64(14695981039346656037)
+	var descs []string
+	for _, e := range log {
+		d := e.String()
+		descs = append(descs, d)
+		for i := 0; i < len(d); i++ {
+			hash ^= uint64(d[i])
+			hash *= 1099511628211
+		}
+		hash ^= ';'
+		hash *= 1099511628211
 	}
 	r.res.Steps = len(cfg.Ops)
-	r.res.TraceHash = fmt.Sprintf("%016x", r.hash)
+	r.res.TraceHash = fmt.Sprintf("%016x", hash)
 	r.res.Outcome = "ok"
 	if r.res.Class != "" {
 		r.res.Outcome = "violation"
 		b, _ := json.Marshal(cfg)
 		r.res.Config = b
 	}
-	r.res.Nontriv = r.changes >= 2
-	r.res.Tags["handles"] = fmt.Sprint(len(r.handles))
+	r.res.Nontriv = changes >= 2
+	r.res.Tags["handles"] = fmt.Sprint(len(inboxes))
 	r.res.Tags["first_batch_size"] = fmt.Sprint(m)
-	b, _ := json.Marshal(map[string]any{"batch_size": m, "history": r.log})
+	b, _ := json.Marshal(map[string]any{"batch_size": m, "history": descs})
 	r.res.Sample = b
 	return r.res
 }
 
-func (r *runState) step(i int, op *Op) {
-	idx := ((op.H % len(r.handles)) + len(r.handles)) % len(r.handles)
-	hd := r.handles[idx]
-	where := fmt.Sprintf("op %d %s on handle #%d", i, op.Kind, idx)
+var blockKey = [...]string{"0", "1", "2", "3"}
+
+func probeKey(prefix string, blocks int) string {
+	if blocks >= 4 {
+		return prefix + "4plus"
+	}
+	return prefix + blockKey[blocks]
+}
+
+// step executes one operation on the actor's own handle; it returns the new handle if the operation was a Clone.
+//
+// Nothing on the path of a conforming operation may use fmt, math/big or anything else built on sync.Pool: a pool hands
+// objects from one goroutine to another with real synchronisation, which would order the actors for the race detector.
+// Messages are therefore formatted only once a violation has been found (where() below), and the log holds plain fields
+// that the root formats after the actors have exited.
+func (hd *handle) step(msg opMsg) (clone *handle) {
+	i, op, idx := msg.index, &msg.op, msg.idx
+	hd.idx = idx
+	where := func() string { return fmt.Sprintf("op %d %s on handle #%d", i, op.Kind, idx) }
 	blocks := op.Blocks
 	if blocks < 0 {
 		blocks = 0
 	}
 	n := blocks * ref.HashLen
-	desc := fmt.Sprintf("#%d.%s", idx, op.Kind)
+	e := logEntry{index: i, idx: idx, kind: op.Kind, m: hd.m, n: n}
 	switch op.Kind {
 	case "absorb":
 		if hd.squeezing {
@@ -201,61 +345,50 @@ func (r *runState) step(i int, op *Op) {
 		}
 		src := genTrits(op.Pattern, op.Seed, hd.m, n)
 		if err := hd.real.Absorb(src, n); err != nil {
-			r.violate("wrong-error", fmt.Sprintf("%s: valid Absorb of %d lanes x %d trits returned %q", where, hd.m, n, err))
+			hd.violate("wrong-error", fmt.Sprintf("%s: valid Absorb of %d lanes x %d trits returned %q", where(), hd.m, n, err))
 			return
 		}
 		for j := 0; j < hd.m; j++ {
 			hd.lanes[j].Absorb(src[j])
 		}
 		if n > 0 {
-			r.changes++
+			hd.changes++
 		}
-		if blocks >= 4 {
-			r.res.Probes["absorb_blocks_4plus"] = 1
-		} else {
-			r.res.Probes["absorb_blocks_"+fmt.Sprint(blocks)] = 1
-		}
-		desc += fmt.Sprintf("(%dx%d,%s)", hd.m, n, op.Pattern)
+		hd.probes[probeKey("absorb_blocks_", blocks)] = 1
+		e.extra = op.Pattern
 	case "squeeze":
 		dst := make([]trinary.Trits, hd.m)
 		if err := hd.real.Squeeze(dst, n); err != nil {
-			r.violate("wrong-error", fmt.Sprintf("%s: valid Squeeze of %d lanes x %d trits returned %q", where, hd.m, n, err))
+			hd.violate("wrong-error", fmt.Sprintf("%s: valid Squeeze of %d lanes x %d trits returned %q", where(), hd.m, n, err))
 			return
 		}
 		for j := 0; j < hd.m; j++ {
 			want := hd.lanes[j].Squeeze(n)
 			if len(dst[j]) != n {
-				r.violate("model-divergence:squeeze", fmt.Sprintf("%s: lane %d has %d trits, want %d", where, j, len(dst[j]), n))
+				hd.violate("model-divergence:squeeze", fmt.Sprintf("%s: lane %d has %d trits, want %d", where(), j, len(dst[j]), n))
 				return
 			}
 			for t := 0; t < n; t++ {
 				if dst[j][t] != want[t] {
-					r.violate("model-divergence:squeeze", fmt.Sprintf("%s: squeezed trit %d of lane %d (batch size %d) is %d, the single-lane Curl-P-81 sponge gives %d", where, t, j, hd.m, dst[j][t], want[t]))
+					hd.violate("model-divergence:squeeze", fmt.Sprintf("%s: squeezed trit %d of lane %d (batch size %d) is %d, the single-lane Curl-P-81 sponge gives %d", where(), t, j, hd.m, dst[j][t], want[t]))
 					return
 				}
 			}
 		}
 		if n > 0 {
 			hd.squeezing = true
-			r.changes++
-			if hd.squeezing {
-				if blocks >= 4 {
-					r.res.Probes["squeeze_blocks_4plus"] = 1
-				} else {
-					r.res.Probes["squeeze_blocks_"+fmt.Sprint(blocks)] = 1
-				}
-			}
+			hd.changes++
+			hd.probes[probeKey("squeeze_blocks_", blocks)] = 1
 		}
-		desc += fmt.Sprintf("(%dx%d)", hd.m, n)
 	case "clone":
-		if len(r.handles) >= 4 {
+		if msg.live >= 4 {
 			return
 		}
-		c := &handle{real: hd.real.Clone(), m: hd.m, lanes: append([]ref.Sponge{}, hd.lanes...), squeezing: hd.squeezing}
-		r.handles = append(r.handles, c)
-		r.res.Probes["clone"] = 1
+		clone = &handle{idx: msg.live, real: hd.real.Clone(), m: hd.m, lanes: append([]ref.Sponge{}, hd.lanes...), squeezing: hd.squeezing,
+			probes: map[string]int{}, faults: map[string]int{}}
+		hd.probes["clone"] = 1
 		if hd.squeezing {
-			r.res.Probes["clone_while_squeezing"] = 1
+			hd.probes["clone_while_squeezing"] = 1
 		}
 	case "reset":
 		hd.real.Reset()
@@ -264,17 +397,17 @@ func (r *runState) step(i int, op *Op) {
 			m = hd.m
 		}
 		hd.m, hd.lanes, hd.squeezing = m, make([]ref.Sponge, m), false
-		r.changes++
-		r.res.Probes["reset"] = 1
+		hd.changes++
+		hd.probes["reset"] = 1
 		fl, fh := state(curl.NewCurlP81())
 		l, h := state(hd.real)
 		for p := range l {
 			if l[p] != fl[p] || h[p] != fh[p] {
-				r.violate("model-divergence:reset", fmt.Sprintf("%s: after Reset state word %d is (%#x,%#x), a fresh instance has (%#x,%#x)", where, p, l[p], h[p], fl[p], fh[p]))
+				hd.violate("model-divergence:reset", fmt.Sprintf("%s: after Reset state word %d is (%#x,%#x), a fresh instance has (%#x,%#x)", where(), p, l[p], h[p], fl[p], fh[p]))
 				return
 			}
 		}
-		desc += fmt.Sprintf("(m=%d)", m)
+		e.m = m
 	case "copystate":
 		// the comparison below does it
 	case "bad-absorb", "bad-squeeze":
@@ -302,30 +435,27 @@ func (r *runState) step(i int, op *Op) {
 		} else {
 			err = hd.real.Squeeze(make([]trinary.Trits, lanes), cnt)
 		}
-		r.res.Faults["rejected_call_"+op.Bad]++
+		hd.faults["rejected_call_"+op.Bad]++
 		if !errors.Is(err, want) {
-			r.violate("wrong-error", fmt.Sprintf("%s (%s: %d lanes, %d trits): returned %v, documented error is %q", where, op.Bad, lanes, cnt, err, want))
+			hd.violate("wrong-error", fmt.Sprintf("%s (%s: %d lanes, %d trits): returned %v, documented error is %q", where(), op.Bad, lanes, cnt, err, want))
 			return
 		}
 		al, ah := state(hd.real)
 		for p := range al {
 			if al[p] != bl[p] || ah[p] != bh[p] {
-				r.violate("state-changed-by-rejected-call", fmt.Sprintf("%s (%s): the call was rejected with %q but state word %d changed from (%#x,%#x) to (%#x,%#x)", where, op.Bad, err, p, bl[p], bh[p], al[p], ah[p]))
+				hd.violate("state-changed-by-rejected-call", fmt.Sprintf("%s (%s): the call was rejected with %q but state word %d changed from (%#x,%#x) to (%#x,%#x)", where(), op.Bad, err, p, bl[p], bh[p], al[p], ah[p]))
 				return
 			}
 		}
-		desc += "(" + op.Bad + ")"
+		e.extra = op.Bad
 	default:
 		return
 	}
-	r.log = append(r.log, desc)
-	r.mix(desc + ";")
-	// every live handle must still agree with its own model: clones are independent of each other
-	for j := range r.handles {
-		if !r.checkHandle(j, where) {
-			return
-		}
-	}
+	hd.log = append(hd.log, e)
+	// the handle must agree with its own model after each of its operations; the root makes every OTHER live handle
+	// compare itself as well, so an operation that disturbs another handle is seen at once
+	hd.check(i, "")
+	return clone
 }
 
 // Gen draws the configuration of run seed.
